@@ -323,6 +323,15 @@ NodeInfo(n) == InfoTable(WithMasks(Flat(n)))[1]
 LibraryNode(hash256) == [b |-> <<0, 0, 0, 0, 0, 0, 1, 0>> \o hash256, c |-> <<>>, x |-> Library]
 \* the pruned branch (level mask 1) that stands for the level-0 tree n
 PrunedNode(n) == LET i == NodeInfo(n) IN [b |-> BytesToBits(<<1, 1>> \o i.h[1] \o U16(i.d[1])), c |-> <<>>, x |-> Pruned]
+\* The pruned branch with level mask M standing for the tree n (a tree that is itself partly pruned, cut out once more inside a
+\* further Merkle cell): one stored hash / depth per significant level of M below the branch's own, i.e. n's hash / depth at level 0
+\* and at every lower set bit of M   (data = 01 M hash[0..k-1] depth[0..k-1], k = number of set bits of M)
+PrunedMaskNode(n, M) ==
+  LET i  == NodeInfo(n)
+      lv == SubSeq(Levels(M), 1, Pop(M))
+  IN [b |-> BytesToBits(<<1, M>> \o FoldLeft(LAMBDA acc, l : acc \o i.h[l + 1], <<>>, lv)
+                                 \o FoldLeft(LAMBDA acc, l : acc \o U16(i.d[l + 1]), <<>>, lv)),
+      c |-> <<>>, x |-> Pruned]
 \* Merkle proof over the (partly pruned) tree v
 ProofNode(v)  == LET i == NodeInfo(v) IN [b |-> BytesToBits(<<3>> \o i.h[1] \o U16(i.d[1])), c |-> <<v>>, x |-> MerkleProof]
 UpdateNode(v, w) == LET i == NodeInfo(v)  j == NodeInfo(w) IN
